@@ -44,6 +44,10 @@ POne(v) == [k |-> "one", v |-> v, w |-> "", n |-> 0, r |-> ""]
 PCons(v, r) == [k |-> "cons", v |-> v, w |-> "", n |-> 0, r |-> r]
 PCons2(v, w, r) == [k |-> "cons2", v |-> v, w |-> w, n |-> 0, r |-> r]
 PEnds(v, w) == [k |-> "ends", v |-> v, w |-> w, n |-> 0, r |-> ""]
+(* [... v w]: SEVERAL element patterns after the spread are aligned with the END of the vector in their written order: *)
+(* v is the last but one element, w the last;  [r ... v w] binds the first element as well                             *)
+PTail2(v, w) == [k |-> "tail2", v |-> v, w |-> w, n |-> 0, r |-> ""]
+PEnds3(r, v, w) == [k |-> "ends3", v |-> v, w |-> w, n |-> 0, r |-> r]
 Target(s, args) == [state |-> s, args |-> args]
 NoTarget == Target("", <<>>)
 TransArm(s, pats, to) == [state |-> s, pats |-> pats, kind |-> "trans", to |-> to, guards |-> <<>>, out |-> ELit(0)]
@@ -93,12 +97,16 @@ PMatches(p, val) ==
     [] p.k = "cons"  -> val.t = "arr" /\ Len(val.e) >= 1
     [] p.k = "cons2" -> val.t = "arr" /\ Len(val.e) >= 2
     [] p.k = "ends"  -> val.t = "arr" /\ Len(val.e) >= 2
+    [] p.k = "tail2" -> val.t = "arr" /\ Len(val.e) >= 2
+    [] p.k = "ends3" -> val.t = "arr" /\ Len(val.e) >= 3
 PBinds(p, val) ==
   CASE p.k = "var"   -> B(p.v, val)
     [] p.k = "one"   -> B(p.v, NV(val.e[1]))
     [] p.k = "cons"  -> B(p.v, NV(val.e[1])) \o B(p.r, AV(Tail(val.e)))
     [] p.k = "cons2" -> B(p.v, NV(val.e[1])) \o B(p.w, NV(val.e[2])) \o B(p.r, AV(Tail(Tail(val.e))))
     [] p.k = "ends"  -> B(p.v, NV(val.e[1])) \o B(p.w, NV(val.e[Len(val.e)]))
+    [] p.k = "tail2" -> B(p.v, NV(val.e[Len(val.e) - 1])) \o B(p.w, NV(val.e[Len(val.e)]))
+    [] p.k = "ends3" -> B(p.r, NV(val.e[1])) \o B(p.v, NV(val.e[Len(val.e) - 1])) \o B(p.w, NV(val.e[Len(val.e)]))
     [] OTHER -> <<>>
 
 ArmMatches(arm, cfg) ==
